@@ -1140,6 +1140,13 @@ class C11(Check):
         if case["op"] == "container" and top(case["type"])[0] in ("set", "frozenset") and out.get("escape") == "TypeError" \
                 and offenders(case, io) > 0:
             return "set-error-item"
+        if case["op"] == "schema" and out.get("err") == "CollectedParseError":
+            pr, inv = io.get("probe", {}), case["opts"].get("invalid_values", "throw")
+            for q in case.get("props", []):
+                t = pr.get("prop_tables", {}).get(q["name"])
+                if t is not None and t[0][1] is None and (q.get("on_error") or inv) != "throw" \
+                        and isinstance(q["type"], dict) and "c" in q["type"]:
+                    return "output-error-leak"
         return None
 
     def key(self, case, io):
